@@ -242,20 +242,28 @@ pub fn run(ctx: &RunCtx) -> i32 {
         let cfg = Cfg { transport: Transport::Reliable { timeout_ms: t }, mech: Mech::None, fingerprint: false, max_tx: 10 };
         jobs.push((cfg, 2, 30, false, 6, TimeDetail::Fine));
     }
-    // two (thorough: up to four) requests sharing the timer, started 30 ms apart
-    for (rto, rc, rm) in [(100u64, 3u32, 2u32), (100, 2, 16), (37, 3, 1)] {
+    // two, three and four requests sharing the timer, started `stagger` ms apart
+    let staggers: Vec<u64> = if thorough { vec![1, 30, 137] } else { vec![30, 137] };
+    let multi: Vec<(u64, u32, u32)> = if thorough {
+        vec![(100, 3, 2), (100, 2, 16), (37, 3, 1), (37, 5, 3), (500, 4, 32), (100, 7, 16)]
+    } else {
+        vec![(100, 3, 2), (100, 2, 16), (37, 3, 1), (37, 5, 3)]
+    };
+    for (rto, rc, rm) in multi {
         let cfg = Cfg { transport: Transport::Unreliable { rto_ms: rto, gran_ms: 1, rm, rc }, mech: Mech::None, fingerprint: false, max_tx: 10 };
-        jobs.push((cfg.clone(), 2, 30, false, if thorough { 12 } else { 10 }, if thorough { TimeDetail::Fine } else { TimeDetail::Medium }));
-        jobs.push((cfg.clone(), 3, 30, false, if thorough { 12 } else { 10 }, if thorough { TimeDetail::Medium } else { TimeDetail::Coarse }));
-        jobs.push((cfg.clone(), 4, 30, false, if thorough { 12 } else { 10 }, TimeDetail::Coarse));
+        for st in &staggers {
+            jobs.push((cfg.clone(), 2, *st, false, if thorough { 14 } else { 11 }, TimeDetail::Fine));
+            jobs.push((cfg.clone(), 3, *st, false, if thorough { 13 } else { 10 }, if thorough { TimeDetail::Medium } else { TimeDetail::Coarse }));
+            jobs.push((cfg.clone(), 4, *st, false, if thorough { 12 } else { 10 }, TimeDetail::Coarse));
+        }
         // learned RTO: first transaction answered after 7 ms, the next one runs on the learned interval
-        jobs.push((cfg, 2, 40, true, if thorough { 12 } else { 10 }, TimeDetail::Fine));
+        jobs.push((cfg, 2, 40, true, if thorough { 13 } else { 10 }, TimeDetail::Fine));
     }
     let per: Vec<_> = jobs
         .par_iter()
         .map(|(cfg, n, stagger, learned, depth, detail)| {
             let mut r = Report::new();
-            let st = bfs(cfg, &apps, &Mon::new(*n, *stagger, *learned, *detail), *depth, if thorough { 2_000_000 } else { 250_000 }, &mut r);
+            let st = bfs(cfg, &apps, &Mon::new(*n, *stagger, *learned, *detail), *depth, if thorough { 3_000_000 } else { 400_000 }, &mut r);
             r.states = st.states;
             r.transitions = st.transitions;
             r.sym("bfs-configs");
@@ -288,7 +296,7 @@ pub fn run(ctx: &RunCtx) -> i32 {
         rep,
         Finish {
             level: "model_checking",
-            rule: format!("breadth-first exploration of the real client over timer calls at every region representative (each schedule point S_k and the deadline D: -1 ms, exact, +1 ms, midpoints, beyond all deadlines, and 'now') for {} jobs: RTO {{37,100,500}} ms x Rc {:?} x Rm {{1,2,16,32}} x granularity {{1,10}} ms with one request run to completion; reliable 100 ms / 39.5 s; 2, 3 and 4 requests started 30 ms apart sharing the timer; learned-RTO scenarios (first transaction answered after 7 ms, next request runs on the learned interval read through H1); the default configuration driven by the announced durations must give 0/500/1500/3500/7500/15500/31500 and failure at 39500 ms; deviation-bounded runs (<= {} deviations) on the defaults and on Rc 10 / Rm 32. Monitor in integer nanoseconds: first copy in send_request, further copies only in timer calls, one per call, byte-identical, each consuming a schedule point in (last transmission, now], never at or after D, at most Rc; a timer call with an open slot before D does retransmit; failure exactly in the first timer call at or after D", jobs.len(), rcs, if thorough { 4 } else { 3 }),
+            rule: format!("breadth-first exploration of the real client over timer calls at every region representative (each schedule point S_k and the deadline D: -1 ms, exact, +1 ms, midpoints, beyond all deadlines, and 'now') for {} jobs: RTO {{37,100,500}} ms x Rc {:?} x Rm {{1,2,16,32}} x granularity {{1,10}} ms with one request run to completion; reliable 100 ms / 39.5 s; 2, 3 and 4 requests started 30 / 137 (thorough also 1) ms apart sharing the timer; learned-RTO scenarios (first transaction answered after 7 ms, next request runs on the learned interval read through H1); the default configuration driven by the announced durations must give 0/500/1500/3500/7500/15500/31500 and failure at 39500 ms; deviation-bounded runs (<= {} deviations) on the defaults and on Rc 10 / Rm 32. Monitor in integer nanoseconds: first copy in send_request, further copies only in timer calls, one per call, byte-identical, each consuming a schedule point in (last transmission, now], never at or after D, at most Rc; a timer call with an open slot before D does retransmit; failure exactly in the first timer call at or after D", jobs.len(), rcs, if thorough { 4 } else { 3 }),
             assumptions: vec!["RTO_i is the interval recorded for the transaction at send time (H1); whether it is the right estimate is C15's question".into(), "region representatives instead of all instants".into()],
             required_symbols: vec!["bfs-configs", "retransmitted-in-slot", "late-call-skipped-slots", "failed-at-deadline", "early-call-no-retransmission", "learned-rto-scenarios", "deviation-runs", "default-schedule-0-500-1500-3500-7500-15500-31500-fail-39500"],
             min_outcomes: 5,
